@@ -62,7 +62,7 @@ func TestClusterHistories(t *testing.T) {
 			}
 			run++
 			g.Reset(op.Fault, 0)
-			hdr := Event{"ev": "Run", "run": run, "mode": "history", "failAt": op.Fault, "crashAt": 0, "scenario": sc, "ids": liveIDs, "history": hno}
+			hdr := Event{"ev": "Run", "run": run, "mode": "history", "store": StoreName(), "failAt": op.Fault, "crashAt": 0, "scenario": sc, "ids": liveIDs, "history": hno}
 			pre := cloneEvent(prev)
 			pre["when"] = "pre"
 			opEvs := env.Exec(sc, bb, "op", 20*time.Second)
@@ -76,8 +76,13 @@ func TestClusterHistories(t *testing.T) {
 			evs = append(evs, post)
 			AnnotateLocks(evs)
 			out.Emit(hdr)
+			env := false
 			for _, ev := range evs {
 				out.Emit(ev)
+				env = env || ev["class"] == "envfail"
+			}
+			if env { // the store itself failed: the rest of the history starts from an unknown state
+				break
 			}
 		}
 	})
